@@ -12,10 +12,6 @@ import (
 	xr "github.com/cosmos72/gomacro/xreflect"
 )
 
-var vhArgExprs map[ast.Expr]*Expr
-
-func vhModelExpr1(c *Comp, in ast.Expr, t xr.Type) *Expr { return vhArgExprs[in] }
-
 func vhBuiltinComp() *Comp {
 	c := vhComp()
 	if vhSymbolic() {
@@ -310,5 +306,33 @@ func VH_C08_builtin_appendEllipsis() {
 		vhAssert((&got[0] == &s[0]) == (&want[0] == &s2[0]), "append reuses the backing array exactly when Go's append does")
 	}
 	vhAssert(evals == 2, "each argument is evaluated exactly once")
+	vhReach("end")
+}
+
+func VH_C08_builtin_lenCapArray() {
+	c := vhBuiltinComp()
+	var a [3]int32
+	viaPointer := vhBool("through a pointer to the array")
+	evals := 0
+	var arg *Expr
+	if viaPointer {
+		p := &a
+		arg = exprX1(vhTypeOf(p), func(env *Env) xr.Value { evals++; return xr.ValueOf(p) })
+	} else {
+		arg = exprX1(vhTypeOf(a), func(env *Env) xr.Value { evals++; return xr.ValueOf(a) })
+	}
+	fl, failed1 := vhBuiltinCall(c, "len", false, compileLen, arg)
+	fc, failed2 := vhBuiltinCall(c, "cap", false, compileCap, arg)
+	vhAssert(!failed1 && !failed2, "compiles")
+	if failed1 || failed2 {
+		return
+	}
+	l, ok1 := fl.(func(*Env) int)
+	k, ok2 := fc.(func(*Env) int)
+	vhAssert(ok1 && ok2, "len and cap are expressions of type int")
+	if !ok1 || !ok2 {
+		return
+	}
+	vhAssert(l(&Env{}) == 3 && k(&Env{}) == 3, "len and cap of an array (or pointer to array) are the array length")
 	vhReach("end")
 }
